@@ -951,6 +951,40 @@ fn verify_scenarios(ctx: &Ctx, report: &mut Report) {
     use std::os::unix::process::ExitStatusExt;
     crate::run::Out { code: o.status.code(), signal: o.status.signal(), stdout: o.stdout, stderr: o.stderr, timed_out: false }
   });
+  // no --content: the content is looked for beside the torrent and nowhere else - a namesake in the working directory is not it
+  run("content-beside-the-torrent-missing-namesake-in-working-directory", 1, vec![], &|sb| {
+    let files = vec![("a".to_string(), b"alpha".to_vec()), ("b/c".to_string(), b"gamma".to_vec())];
+    sb.write("elsewhere/t.torrent", &multi("data", 16, &files));
+    for (n, d) in &files {
+      sb.write(&format!("data/{n}"), d);
+    }
+    Cmd::new(&ctx.imdl, &["torrent", "verify", "--input", "elsewhere/t.torrent"]).cwd(&sb.root).run()
+  });
+  run("single-file-beside-the-torrent-missing-namesake-in-working-directory", 1, vec![], &|sb| {
+    sb.write("elsewhere/deeper/t.torrent", &single("data", 16, b"some bytes of content", 0));
+    sb.write("data", b"some bytes of content");
+    Cmd::new(&ctx.imdl, &["torrent", "verify", "elsewhere/deeper/t.torrent"]).cwd(&sb.root).literal().run()
+  });
+  // listed files with the names other clients give to padding are listed files: absent from the tree, they are missing,
+  // whatever bytes the pieces were computed with
+  for (label, pad_name) in [("padding-file-missing", ".pad/11"), ("padding-file-missing-bep47-name", ".pad/0"), ("padding-file-missing-old-style-name", "_____padding_file_0_if you see this file, please update to BitComet 0.85 or above____")] {
+    run(label, 1, vec![pad_name.to_string()], &|sb| {
+      let files = vec![("a.bin".to_string(), vec![b'a'; 21]), (pad_name.to_string(), vec![0u8; 11]), ("b.bin".to_string(), vec![b'b'; 40])];
+      sb.write("t.torrent", &multi("data", 32, &files));
+      sb.write("data/a.bin", &files[0].1);
+      sb.write("data/b.bin", &files[2].1);
+      Cmd::new(&ctx.imdl, &["torrent", "verify", "--input", "t.torrent", "--content", "data"]).cwd(&sb.root).run()
+    });
+  }
+  // (and present with the right bytes, they are good like any other file)
+  run("padding-file-present", 0, vec![], &|sb| {
+    let files = vec![("a.bin".to_string(), vec![b'a'; 21]), (".pad/11".to_string(), vec![0u8; 11]), ("b.bin".to_string(), vec![b'b'; 40])];
+    sb.write("t.torrent", &multi("data", 32, &files));
+    for (n, d) in &files {
+      sb.write(&format!("data/{n}"), d);
+    }
+    Cmd::new(&ctx.imdl, &["torrent", "verify", "--input", "t.torrent", "--content", "data"]).cwd(&sb.root).run()
+  });
   // thirty listed files, all gone: every one of them is named
   let thirty: Vec<(String, Vec<u8>)> = (0..30).map(|i| (format!("cd{}/track{i:02}.flac", i % 3), vec![i as u8; 3])).collect();
   run("thirty-files-missing-all-named", 1, thirty.iter().map(|f| f.0.clone()).collect(), &|sb| {
